@@ -381,6 +381,12 @@ func NewFECase(g *Gen, id int) *Case {
 		}
 		sort.Strings(bks)
 		for _, k := range bks { // blank entries between the others of a list ([]-named, or a repeated parameter)
+			if strings.HasSuffix(k, "[]") && g.R.Fork(0x1b1a).P(30) {
+				// a []-named parameter is a list whatever its length: here a list of one blank entry
+				vals[k] = []string{Pick(g.R.Fork(0x1b1b), []string{"", " ", "+"})}
+				comparable = false
+				continue
+			}
 			if vs := vals[k]; len(vs) > 0 && g.R.P(65) {
 				i := g.R.Intn(len(vs))
 				vals[k] = append(append(append([]string{}, vs[:i]...), Pick(g.R, []string{"", " "})), vs[i:]...)
@@ -394,6 +400,8 @@ func NewFECase(g *Gen, id int) *Case {
 				if g.R.P(50) && len(vs) > 0 { // blank entries between the others
 					k := g.R.Intn(len(vs))
 					vs = append(append(append([]string{}, vs[:k]...), Pick(g.R, []string{"", " "})), vs[k:]...)
+				} else if g.R.Fork(0x1b1c).P(40) { // exactly one entry, blank
+					vs = []string{Pick(g.R.Fork(0x1b1d), []string{"", " "})}
 				}
 				vals[feKey(f, tag)+"[]"] = vs
 				comparable = false
